@@ -885,7 +885,7 @@ def held_back(t):
     TODO(audit-1): an expanding table whose LAST flexible column has an explicit ratio of 0 (after at least one column with a
     positive ratio) renders one cell wider than the available width near the structural minimum: ratio_distribute hands the
     zero-ratio slot `max(0, remainder)` = 0 instead of its minimum, _collapse_widths fits the rest into the width and the
-    re-measure turns the 0 into 1.  Genuine defect of the tree (witness + one-line patch: /tmp/audit-1/c07/witness_zero_ratio.py,
+    re-measure turns the 0 into 1.  Genuine defect of the tree (witness + one-line patch: audit_artifacts/c07/witness_zero_ratio.py,
     zero-ratio-minimum.diff), signature `expand:wider opts=...col.zero-ratio...`; until it is fixed or recorded as a known
     finding these recipes stay out so that the check is quiet on the unchanged tree (C07_ZERO_RATIO_LAST=1 lets them in).
     Zero ratios before the last positive one, and tables whose ratios are all zero, ARE generated."""
@@ -893,7 +893,7 @@ def held_back(t):
     # column measures as padding + 0, gets no content cell at any available width, and the character is not printed at all.
     # Genuine (marginal) defect of the tree - it used to hide under the starved-column clause (the column is below padding +
     # one cell), but no solver step squeezed it; signature `cell:missing-in-column-narrower-than-its-peers ...zero-width-cell`;
-    # witness /tmp/audit-1/c07/witness_zero_width_column.py.  (C07_ZERO_WIDTH_COLUMN=1 lets these recipes in.)  Zero-width-only
+    # witness audit_artifacts/c07/witness_zero_width_column.py.  (C07_ZERO_WIDTH_COLUMN=1 lets these recipes in.)  Zero-width-only
     # cells next to a cell of positive width in the same column ARE generated.
     if os.environ.get("C07_ZERO_WIDTH_COLUMN") != "1" and _zero_width_only_column(t):
         return "zero-width-only column"
@@ -906,7 +906,7 @@ def held_back(t):
     # next to another column renders one cell wider than the available width: a column without cells measures as
     # (1, max_width), the no_wrap column may not shrink, the other one is collapsed to 0 and the re-measure turns the 0 into 1.
     # Genuine defect of the tree, older than this audit (the generator reached it about once in a thousand recipes; the
-    # signature is `expand:wider opts=col.nw,ex,sh`); witness + one-line patch: /tmp/audit-1/c07/witness_empty_nowrap.py,
+    # signature is `expand:wider opts=col.nw,ex,sh`); witness + one-line patch: audit_artifacts/c07/witness_empty_nowrap.py,
     # empty-column-measure.diff.  Held back like the one above (C07_EMPTY_NOWRAP=1 lets these recipes in).
     if not shown_grid(t) and t["nc"] >= 2 and any(c["nw"] for c in t["cols"]) and os.environ.get("C07_EMPTY_NOWRAP") != "1":
         return "no shown row, no_wrap column"
